@@ -32,12 +32,15 @@ ExtendOld(t, len, old) == [i \in 1..N |-> IF i <= len THEN t[i] ELSE old[i]]
 
 ValidLen(len) == len >= 1 /\ len <= N
 
+Budget == MaxCalls = 0 \/ calls < MaxCalls
+Tick == IF MaxCalls = 0 THEN 0 ELSE calls + 1
+
 Init == key = "none" /\ tw = ZeroT /\ sched = <<"none", ZeroT>> /\ last = ZeroT /\ calls = 0
 
 SetTweakedKey(k) ==
-    /\ calls < MaxCalls
+    /\ Budget
     /\ key' = k /\ tw' = ZeroT /\ sched' = Fresh(k, ZeroT) /\ last' = ZeroT
-    /\ calls' = calls + 1
+    /\ calls' = Tick
 
 ImplSetTweak(new) ==
     LET prev == tw
@@ -48,20 +51,20 @@ ImplSetTweak(new) ==
         /\ sched' = <<sched[1], t2>>
 
 SetTweak(t, len) ==
-    /\ calls < MaxCalls /\ key # "none"
+    /\ Budget /\ key # "none"
     /\ ValidLen(len)
     /\ LET new == IF Variant = "noext" THEN ExtendOld(t, len, tw) ELSE Extend(t, len)
        IN  ImplSetTweak(new) /\ last' = Extend(t, len)
-    /\ calls' = calls + 1 /\ UNCHANGED key
+    /\ calls' = Tick /\ UNCHANGED key
 
 SetTweakNull(len) ==
-    /\ calls < MaxCalls /\ key # "none" /\ ValidLen(len)
+    /\ Budget /\ key # "none" /\ ValidLen(len)
     /\ ImplSetTweak(ZeroT) /\ last' = ZeroT
-    /\ calls' = calls + 1 /\ UNCHANGED key
+    /\ calls' = Tick /\ UNCHANGED key
 
 SetTweakBad(len) ==
-    /\ calls < MaxCalls /\ ~ValidLen(len)
-    /\ calls' = calls + 1 /\ UNCHANGED <<key, tw, sched, last>>
+    /\ Budget /\ ~ValidLen(len)
+    /\ calls' = Tick /\ UNCHANGED <<key, tw, sched, last>>
 
 Next ==
     \/ \E k \in Keys : SetTweakedKey(k)
